@@ -821,7 +821,7 @@ def start_background(ctx):
             sub('refute-presentation-' + v, 'MC_BinPres', 'MC_BinPres_ref_%s.cfg' % v, workers=1, allow_violation=True)
         for m, _ in CALL_MUTANTS:
             sub('refute-calls-' + m, 'MC_BinCalls', 'MC_BinCalls_ref_%s.cfg' % m, workers=1, allow_violation=True)
-        sub('calls-design', 'MC_BinCalls', 'MC_BinCalls_design.cfg', workers=2)
+        sub('calls-table', 'MC_BinCalls', 'EX_BinCalls_table.cfg', workers=1)      # operation tables of the walks' alphabet (3 grids)
         sub('calls-walks', 'MC_BinCalls', 'SIM_BinCalls.cfg', workers=1, simulate='num=600', depth=8, seed=ctx.seed + 5)
     pool.shutdown(wait=False)
     return jobs
@@ -858,11 +858,10 @@ def run_call_histories(ctx, bg):
     if not q:
         for m, inv in CALL_MUTANTS:
             collect(ctx, bg, 'refute-calls-' + m, refuted=inv)
-        collect(ctx, bg, 'calls-design')
         walks = collect(ctx, bg, 'calls-walks', counts=False)
         if len(walks.tagged('CWALK')) < 300:
             raise Machinery('TLC produced only %d call sequences' % len(walks.tagged('CWALK')))
-    alph, ws = BC.load(pairs, walks, ctx.seed)
+    alph, ws = BC.load(pairs, walks, ctx.seed, tables=None if q else collect(ctx, bg, 'calls-table', counts=False))
     exposing = BC.run_walks(ctx, alph, ws)
     BC.canary(ctx, alph, ws, exposing)
     ctx.note('call histories: %d sequences (%d exhaustive pairs) on %d kinds x stored orders; design mutants exposed by TLC: %s'
